@@ -19,6 +19,8 @@
     * `expect_batch_eq_dense`     `MPS.expect_batch` with recorded centre `c` (any `c`, including 0 and n−1), loops
                                   `range(c, n)` and `range(c-1, -1, -1)` as written, result table zero-initialised:
                                   entry `[i][j]` is `⟨ψ|(O_j)_i|ψ⟩` for EVERY site `i < n`;
+      `expect_batch_no_centre`    no recorded centre: after `self.orthogonalize(0)` (qr contract `q·r = m`, result canonical
+                                  at 0) the table is the dense definition on the state passed in;
       `expect_batch_seeded_range_bug`  the same model with the second loop running over `range(c-1, 0, -1)` leaves
                                   `result[0] = 0` (kernel-checked instance: the theorem is about the ranges);
     * `occupation_mps_eq_dense`   `qubit_occupation_mps_impl`: entry `i` is `Σ_s [s_i = 1]·|amp s|² = ⟨ψ|n_i|ψ⟩`;
@@ -46,6 +48,7 @@
 -/
 import EmuVerif.Proofs.MpsObs
 import EmuVerif.Proofs.TensorCx
+import EmuVerif.Props.C11
 import EmuVerif.Props.C25
 import Mathlib.Tactic.IntervalCases
 
@@ -100,6 +103,35 @@ theorem expect_batch_entry (d : Nat) (ops : List (Nat → Nat → K)) (fs : List
   obtain ⟨_, r2⟩ := expect_batch_eq_dense d ops fs c rt lt res h hv hc hrt hlt
   rw [r2 i hi]
   simp [List.getElem?_map, hj]
+
+/-- **`expect_batch` when no centre is recorded**: the code first calls `self.orthogonalize(0)`; with the qr
+contract `q·r = m` for that sweep (C11's `OrthOk`: amplitudes are kept) and the resulting factors canonical at 0
+(C10), the table is the dense definition on the state that was passed in. -/
+theorem expect_batch_no_centre (d : Nat) (ops : List (Nat → Nat → K)) (fs : List (Site K))
+    (otape : List (QRr K)) (rt lt : List (RMat K)) (res : List (List K))
+    (h : expectBatch d ops fs none otape rt lt = some res)
+    (hok : EmuVerif.Props.C11.OrthOk fs none 0 [] otape)
+    (hpost : ∀ fs', orthogonalize fs none 0 [] otape = some fs' →
+      validChain d fs' = true ∧ Canonical fs' 0 ∧
+      (∀ Fc, fs'[0]? = some Fc → RightOk fs'.length fs' (pyRange 0 fs'.length) Fc rt)) :
+    res.length = fs.length ∧
+      ∀ i, i < fs.length → res[i]? = some (ops.map (fun O => denseProd d (oneSiteOps fs.length i O) fs)) := by
+  unfold expectBatch at h
+  simp only at h
+  cases ho : orthogonalize fs none 0 [] otape with
+  | none => rw [ho] at h; simp at h
+  | some fs' =>
+    rw [ho] at h
+    simp only at h
+    obtain ⟨hv, hc, hrt⟩ := hpost fs' ho
+    have hl := orthogonalize_length fs fs' none 0 [] otape ho
+    have ha := EmuVerif.Props.C11.orthogonalize_amp fs fs' none 0 [] otape ho hok
+    obtain ⟨r1, r2⟩ := expect_batch_eq_dense d ops fs' 0 rt lt res h hv hc hrt (fun _ _ => trivial)
+    rw [hl] at r1 r2
+    refine ⟨r1, fun i hi => ?_⟩
+    rw [r2 i hi]
+    congr 1
+    exact List.map_congr_left (fun O _ => denseProd_congr_amp d _ fs fs' hl ha)
 
 /-- the matrix element of `1 ⊗ … ⊗ O ⊗ … ⊗ 1`: the two strings agree away from site `i`, weight `⟨s_i|O|t_i⟩` -/
 theorem prodOp_one_site (n i : Nat) (O : Nat → Nat → K) (s t : List Nat) (hs : s.length = n) (ht : t.length = n)
@@ -246,6 +278,364 @@ theorem corr_matrix_eq_dense (d : Nat) (fs : List (Site K)) (snaps : List (List 
     unfold denseDiag
     simp only [bitW2_comm]
 
+/-! ### the qr contract -/
+
+/-- the Gram contract of the first loop follows from what a reduced QR factorisation is: `q·r = m`, `q†·q = 1` -/
+theorem gramR_of_qr (f : RMat K) (C : Site K) (q : Nat → Nat → Nat → K)
+    (hqr : ∀ x < C.d, ∀ l < C.dl, ∀ j < C.dr, ∑ k ∈ range f.k, q x l k * f.r k j = C.t x l j)
+    (hqq : ∀ k < f.k, ∀ k' < f.k, ∑ l ∈ range C.dl, ∑ x ∈ range C.d, star (q x l k) * q x l k' = delta k k') :
+    GramR f C := MpsObs.gramR_of_qr f C q hqr hqq
+
+theorem gramL_of_qr (f : RMat K) (C : Site K) (q : Nat → Nat → Nat → K)
+    (hqr : ∀ x < C.d, ∀ m < C.dr, ∀ j < C.dl, ∑ k ∈ range f.k, q x m k * f.r k j = C.t x j m)
+    (hqq : ∀ k < f.k, ∀ k' < f.k, ∑ m ∈ range C.dr, ∑ x ∈ range C.d, star (q x m k) * q x m k' = delta k k') :
+    GramL f C := MpsObs.gramL_of_qr f C q hqr hqq
+
+/-! ### energy, second moment, variance (`MPO.expect`, `hamiltonian @ hamiltonian` before truncation) -/
+
+/-- **`energy_mps_impl`** (before `.real`): `MPO.expect(state) = Σ_{s,t} conj(amp s)·⟨s|H|t⟩·amp t` (C11). -/
+theorem energy_mps_eq_dense (d : Nat) (As H : List (Site K)) (hA : validChain d As = true)
+    (hH : validChain (d * d) H = true) (hlen : As.length = H.length) :
+    expect As H = some (sumStrings d As.length (fun s => sumStrings d As.length (fun t =>
+      star (amp As s) * opAmp d H s t * amp As t))) :=
+  EmuVerif.Props.C11.expect_eq_dense d As H hA hH hlen
+
+/-- **`energy_second_moment_mps_impl`** (before `.real`), with `hamiltonian @ hamiltonian` = `zip_right` *before
+truncation* (`H2`; its validity is what the `MPO` constructor asserts) and every recorded qr satisfying `q·r = m`:
+`Σ_{s,t} conj(amp s)·(Σ_u ⟨s|H|u⟩·⟨u|H|t⟩)·amp t = ⟨ψ|H·H|ψ⟩`. -/
+theorem second_moment_mps_eq_dense (d : Nat) (As H H2 : List (Site K)) (tape : List (QR3 K))
+    (hz : zipRight d d H H tape = some H2) (hok : ZipOk d d H H tape slider0)
+    (hA : validChain d As = true) (hH : validChain (d * d) H = true) (hH2 : validChain (d * d) H2 = true)
+    (hlen : As.length = H.length) (hlen2 : As.length = H2.length) :
+    expect As H2 = some (sumStrings d As.length (fun s => sumStrings d As.length (fun t =>
+      star (amp As s) * sumStrings d As.length (fun u => opAmp d H s u * opAmp d H u t) * amp As t))) := by
+  rw [EmuVerif.Props.C11.expect_eq_dense d As H2 hA hH2 hlen2]
+  congr 1
+  refine Dark.sumStrings_congr' _ _ _ _ (fun s hs hsd => Dark.sumStrings_congr' _ _ _ _ (fun t ht htd => ?_))
+  congr 2
+  unfold opAmp
+  rw [EmuVerif.Props.C11.zip_right_amp d d H H H2 tape hz hok hH hH s t (by rw [hs, hlen]) (by rw [ht, hlen]) hsd htd,
+    hlen]
+  rfl
+
+/-- **`energy_variance_mps_impl`** (before `.real`): `h_2 - h**2` of the two numbers above. -/
+theorem variance_mps_eq_dense (d : Nat) (As H H2 : List (Site K)) (tape : List (QR3 K))
+    (hz : zipRight d d H H tape = some H2) (hok : ZipOk d d H H tape slider0)
+    (hA : validChain d As = true) (hH : validChain (d * d) H = true) (hH2 : validChain (d * d) H2 = true)
+    (hlen : As.length = H.length) (hlen2 : As.length = H2.length) (e e2 : K)
+    (he : expect As H = some e) (he2 : expect As H2 = some e2) :
+    e2 - e * e =
+      sumStrings d As.length (fun s => sumStrings d As.length (fun t =>
+        star (amp As s) * sumStrings d As.length (fun u => opAmp d H s u * opAmp d H u t) * amp As t))
+      - sumStrings d As.length (fun s => sumStrings d As.length (fun t => star (amp As s) * opAmp d H s t * amp As t))
+        * sumStrings d As.length (fun s => sumStrings d As.length (fun t => star (amp As s) * opAmp d H s t * amp As t)) := by
+  rw [energy_mps_eq_dense d As H hA hH hlen] at he
+  rw [second_moment_mps_eq_dense d As H H2 tape hz hok hA hH hH2 hlen hlen2] at he2
+  rw [← Option.some.inj he, ← Option.some.inj he2]
+
+/-! ### `fill_results`: normalisation -/
+
+/-- every (sesquilinear) observable of `λ·ψ` is `conj(λ)·λ` times that of `ψ` (`__rmul__` scales one factor) -/
+theorem scaled_observable (d : Nat) (ops : List (Nat → Nat → K)) (c : K) (which : Nat) (fs : List (Site K))
+    (hw : which < fs.length) :
+    denseProd d ops (scaleFactors c which fs) = star c * c * denseProd d ops fs :=
+  denseProd_scale d ops c which fs hw
+
+theorem scaled_diag_observable (d : Nat) (w : List Nat → K) (c : K) (which : Nat) (fs : List (Site K))
+    (hw : which < fs.length) :
+    denseDiag d w (scaleFactors c which fs) = star c * c * denseDiag d w fs :=
+  denseDiag_scale d w c which fs hw
+
+theorem scaled_norm (d : Nat) (c : K) (which : Nat) (fs : List (Site K)) (hw : which < fs.length) :
+    denseNormSq d (scaleFactors c which fs) = star c * c * denseNormSq d fs :=
+  denseNormSq_scale d c which fs hw
+
+/-- `1 / self.state.norm() * self.state` is normalised, given what the scalar is meant to be: `|λ|²·⟨ψ|ψ⟩ = 1`
+(the contract of `sqrt` and `/`; `⟨ψ|ψ⟩ = normSqAt` by `norm_sq_eq_dense`) -/
+theorem normalised_of_inverse_norm (d : Nat) (c : K) (which : Nat) (fs : List (Site K)) (hw : which < fs.length)
+    (hc : star c * c * denseNormSq d fs = 1) : denseNormSq d (scaleFactors c which fs) = 1 := by
+  rw [scaled_norm d c which fs hw, hc]
+
+/-- scaling the centre factor keeps the canonical form (and the recorded centre) -/
+theorem canonical_scale (c : K) (k : Nat) (fs : List (Site K)) (h : Canonical fs k) :
+    Canonical (scaleFactors c k fs) k := by
+  refine ⟨fun i hi A hA => h.1 i hi A ?_, fun i hi A hA => h.2 i hi A ?_⟩
+  · rw [← scaleFactors_getElem?_ne c k fs i (by omega)]; exact hA
+  · rw [← scaleFactors_getElem?_ne c k fs i (by omega)]; exact hA
+
+/-! ### `fill_results`: dark-atom padding -/
+
+open EmuVerif.Dark in
+/-- a diagonal observable of the padded state whose eigenvalue only depends on the good atoms (dark atoms in
+level 0) is the corresponding observable of the reduced state -/
+theorem padded_diag_observable (dim : Nat) (hdpos : 0 < dim) (fs gs : List (Site K)) (w : List Bool)
+    (hg : extendedMps fs w = some gs) (hW : Wf fs) (h1 : headDl fs = 1) (hd : ∀ A ∈ fs, A.d = dim)
+    (hdim : stateDim fs = dim) (W V : List Nat → K)
+    (hWV : ∀ s, s.length = w.length → darkPass passState w s = true → W s = V (restrict w s)) :
+    denseDiag dim W gs = denseDiag dim V fs := by
+  obtain ⟨_, _, gl, _⟩ := EmuVerif.Props.C25.extended_mps_valid fs gs w hg hW h1 dim hdim hd
+  have hfl : fs.length = countGood w := by
+    unfold extendedMps at hg; split at hg
+    · exact absurd hg (by simp)
+    · rename_i hc; simpa using hc
+  unfold denseDiag
+  rw [gl, hfl, ← sumStrings_mask dim hdpos w]
+  refine sumStrings_congr' _ _ _ _ (fun s hs _ => ?_)
+  rw [EmuVerif.Props.C25.extended_mps_amp fs gs w hg hW h1 s hs]
+  by_cases hp : darkPass passState w s = true
+  · simp only [hp, if_true]
+    rw [hWV s hs hp]
+  · simp only [hp]
+    simp [conj_eq_star]
+
+open EmuVerif.Dark in
+theorem darkPass_getD (w : List Bool) (s : List Nat) (p : Nat) (hs : s.length = w.length)
+    (hp : darkPass passState w s = true) (hw : w[p]? = some false) : s.getD p 0 = 0 := by
+  induction w generalizing s p with
+  | nil => simp at hw
+  | cons b w ih =>
+    cases s with
+    | nil => simp at hs
+    | cons x s =>
+      cases p with
+      | zero =>
+        simp only [List.getElem?_cons_zero, Option.some.injEq] at hw
+        subst hw
+        simp only [darkPass, Bool.and_eq_true, passState, beq_iff_eq] at hp
+        simpa using hp.1
+      | succ p =>
+        simp only [List.getElem?_cons_succ] at hw
+        simp only [List.getD_cons_succ]
+        refine ih s p (by simpa using hs) ?_ hw
+        cases b
+        · simp only [darkPass, Bool.and_eq_true] at hp; exact hp.2
+        · simpa [darkPass] using hp
+
+open EmuVerif.Dark in
+/-- **dark atoms report occupation 0** -/
+theorem padded_occupation_dark (dim : Nat) (hdpos : 0 < dim) (fs gs : List (Site K)) (w : List Bool)
+    (hg : extendedMps fs w = some gs) (hW : Wf fs) (h1 : headDl fs = 1) (hd : ∀ A ∈ fs, A.d = dim)
+    (hdim : stateDim fs = dim) (p : Nat) (hp : w[p]? = some false) :
+    denseDiag dim (bitW p) gs = 0 := by
+  rw [padded_diag_observable dim hdpos fs gs w hg hW h1 hd hdim (bitW p) (fun _ => 0)
+    (fun s hs hps => by
+      have h0 := darkPass_getD w s p hs hps hp
+      simp only [bitW, h0]; simp)]
+  unfold denseDiag
+  simp only [zero_mul]
+  exact sumStrings_zero _ _
+
+open EmuVerif.Dark in
+/-- **the `k`-th good atom, sitting at position `p` of the padded register, reports the occupation of site `k`
+of the reduced state** -/
+theorem padded_occupation_good (dim : Nat) (hdpos : 0 < dim) (fs gs : List (Site K)) (w : List Bool)
+    (hg : extendedMps fs w = some gs) (hW : Wf fs) (h1 : headDl fs = 1) (hd : ∀ A ∈ fs, A.d = dim)
+    (hdim : stateDim fs = dim) (k p : Nat) (hp : getExtendedSiteIndex w (some k) = some (some p)) :
+    denseDiag dim (bitW p) gs = denseDiag dim (bitW k) fs := by
+  refine padded_diag_observable dim hdpos fs gs w hg hW h1 hd hdim (bitW p) (bitW k) (fun s hs _ => ?_)
+  have := EmuVerif.Props.C25.filter_good_get w s hs k p hp
+  unfold filterGood at this
+  simp only [bitW, List.getD_eq_getElem?_getD, this]
+
+open EmuVerif.Dark in
+/-- the correlation of two good atoms is that of the reduced state; with a dark atom involved it is 0 -/
+theorem padded_correlation_good (dim : Nat) (hdpos : 0 < dim) (fs gs : List (Site K)) (w : List Bool)
+    (hg : extendedMps fs w = some gs) (hW : Wf fs) (h1 : headDl fs = 1) (hd : ∀ A ∈ fs, A.d = dim)
+    (hdim : stateDim fs = dim) (k k' p p' : Nat) (hp : getExtendedSiteIndex w (some k) = some (some p))
+    (hp' : getExtendedSiteIndex w (some k') = some (some p')) :
+    denseDiag dim (bitW2 p p') gs = denseDiag dim (bitW2 k k') fs := by
+  refine padded_diag_observable dim hdpos fs gs w hg hW h1 hd hdim _ _ (fun s hs _ => ?_)
+  have e1 := EmuVerif.Props.C25.filter_good_get w s hs k p hp
+  have e2 := EmuVerif.Props.C25.filter_good_get w s hs k' p' hp'
+  unfold filterGood at e1 e2
+  simp only [bitW2, bitW, List.getD_eq_getElem?_getD, e1, e2]
+
+open EmuVerif.Dark in
+theorem padded_correlation_dark (dim : Nat) (hdpos : 0 < dim) (fs gs : List (Site K)) (w : List Bool)
+    (hg : extendedMps fs w = some gs) (hW : Wf fs) (h1 : headDl fs = 1) (hd : ∀ A ∈ fs, A.d = dim)
+    (hdim : stateDim fs = dim) (p p' : Nat) (hp : w[p]? = some false ∨ w[p']? = some false) :
+    denseDiag dim (bitW2 p p') gs = 0 := by
+  rw [padded_diag_observable dim hdpos fs gs w hg hW h1 hd hdim (bitW2 p p') (fun _ => 0)
+    (fun s hs hps => by
+      rcases hp with h | h
+      · have h0 := darkPass_getD w s p hs hps h
+        simp only [bitW2, bitW, h0]; simp
+      · have h0 := darkPass_getD w s p' hs hps h
+        simp only [bitW2, bitW, h0]; simp)]
+  unfold denseDiag
+  simp only [zero_mul]
+  exact sumStrings_zero _ _
+
+open EmuVerif.Dark in
+/-- padding keeps the norm -/
+theorem padded_norm (dim : Nat) (hdpos : 0 < dim) (fs gs : List (Site K)) (w : List Bool)
+    (hg : extendedMps fs w = some gs) (hW : Wf fs) (h1 : headDl fs = 1) (hd : ∀ A ∈ fs, A.d = dim)
+    (hdim : stateDim fs = dim) : denseNormSq dim gs = denseNormSq dim fs := by
+  have := padded_diag_observable dim hdpos fs gs w hg hW h1 hd hdim (fun _ => 1) (fun _ => 1) (fun _ _ _ => rfl)
+  unfold denseDiag at this
+  unfold denseNormSq
+  simpa using this
+
+/-- the energy handed to the callbacks: padded operator on the padded state = reduced pair (C25) -/
+theorem padded_energy (dim : Nat) (hdpos : 0 < dim) (fs ws gs hs : List (Site K)) (w : List Bool)
+    (hg : Dark.extendedMps fs w = some gs) (hh : Dark.extendedMpo ws w = some hs)
+    (fW : Wf fs) (f1 : headDl fs = 1) (fd : ∀ A ∈ fs, A.d = dim) (fdim : Dark.stateDim fs = dim)
+    (wW : Wf ws) (w1 : headDl ws = 1) (wdim : Dark.opDim ws = dim) :
+    expect gs hs = expect fs ws :=
+  EmuVerif.Props.C25.padded_expect_eq_reduced dim hdpos fs ws gs hs w hg hh fW f1 fd fdim wW w1 wdim
+
 end star
+
+/-! ### values are real and in range (over `Cx α`, `α` an ordered field) -/
+
+section real
+variable {α : Type} [Field α] [LinearOrder α] [IsStrictOrderedRing α]
+
+theorem bitW_01 (i : Nat) (s : List Nat) : (bitW i s : Cx α) = 0 ∨ (bitW i s : Cx α) = 1 := by
+  unfold bitW; split <;> simp
+
+theorem bitW2_01 (i j : Nat) (s : List Nat) : (bitW2 i j s : Cx α) = 0 ∨ (bitW2 i j s : Cx α) = 1 := by
+  unfold bitW2 bitW; split <;> split <;> simp
+
+/-- `.real` drops nothing: occupation and correlation values have imaginary part 0 -/
+theorem diag_observable_real (d : Nat) (fs : List (Site (Cx α))) (i j : Nat) :
+    (denseDiag d (bitW i) fs).im = 0 ∧ (denseDiag d (bitW2 i j) fs).im = 0 :=
+  ⟨(denseDiag_bounds d _ (bitW_01 i) fs).1, (denseDiag_bounds d _ (bitW2_01 i j) fs).1⟩
+
+/-- occupations of a normalised state lie in `[0, 1]` (`n` is a projector) -/
+theorem occupation_range (d : Nat) (fs : List (Site (Cx α))) (hn : denseNormSq d fs = 1) (i : Nat) :
+    0 ≤ (denseDiag d (bitW i) fs).re ∧ (denseDiag d (bitW i) fs).re ≤ 1 := by
+  obtain ⟨_, h0, h1⟩ := denseDiag_bounds d _ (bitW_01 i) fs
+  rw [hn] at h1
+  exact ⟨h0, h1⟩
+
+/-- correlations `⟨n_i n_j⟩` of a normalised state lie in `[0, 1]` -/
+theorem correlation_range (d : Nat) (fs : List (Site (Cx α))) (hn : denseNormSq d fs = 1) (i j : Nat) :
+    0 ≤ (denseDiag d (bitW2 i j) fs).re ∧ (denseDiag d (bitW2 i j) fs).re ≤ 1 := by
+  obtain ⟨_, h0, h1⟩ := denseDiag_bounds d _ (bitW2_01 i j) fs
+  rw [hn] at h1
+  exact ⟨h0, h1⟩
+
+/-- reported occupations of a normalised canonical MPS are in range -/
+theorem occupation_mps_range (d : Nat) (fs : List (Site (Cx α))) (c : Nat) (rt lt : List (RMat (Cx α)))
+    (occ : List (Cx α)) (h : occupationMps d fs c rt lt = some occ)
+    (hv : validChain d fs = true) (hc : Canonical fs c)
+    (hrt : ∀ Fc, fs[c]? = some Fc → RightOk fs.length fs (pyRange c fs.length) Fc rt)
+    (hlt : ∀ Fc, fs[c]? = some Fc → LeftOk fs (pyRangeDown c) Fc lt)
+    (hn : denseNormSq d fs = 1) (i : Nat) (hi : i < fs.length) :
+    ∃ v, occ[i]? = some v ∧ v.im = 0 ∧ 0 ≤ v.re ∧ v.re ≤ 1 := by
+  obtain ⟨_, r2⟩ := occupation_mps_eq_dense d fs c rt lt occ h hv hc hrt hlt
+  exact ⟨_, r2 i hi, (diag_observable_real d fs i i).1, occupation_range d fs hn i⟩
+
+end real
+
+/-! ### non-vacuity: a concrete canonical MPS over the Gaussian integers; the seeded range bug -/
+
+section examples
+abbrev Z := Cx ℤ
+
+def exC (x l r : Nat) : Z := ⟨(x : ℤ) + 2 * l - r, (l : ℤ) * r - x⟩
+
+/-- three qubits, bonds (1, 2, 2, 1): site 0 a left-isometry, site 2 a right-isometry, centre (any tensor) at site 1 -/
+def exFs : List (Site Z) :=
+  [{ dl := 1, d := 2, dr := 2, t := fun x _ r => if x = r then 1 else 0 },
+   { dl := 2, d := 2, dr := 2, t := exC },
+   { dl := 2, d := 2, dr := 1, t := fun x l _ => if x = l then ⟨0, 1⟩ else 0 }]
+
+/-- recorded `r`s: the matrix handed to `qr` itself (`q = 1`), which satisfies the Gram contract trivially -/
+def exRt : List (RMat Z) := [{ k := 4, r := fun k j => exC (k % 2) (k / 2) j }]
+def exLt : List (RMat Z) := [{ k := 4, r := fun k j => exC (k / 2) j (k % 2) }]
+
+/-- a non-Hermitian operator next to `n` -/
+def exO : Nat → Nat → Z := fun x y => ⟨(x : ℤ) + 2 * y, 1⟩
+def exOps : List (Nat → Nat → Z) := [nOp, exO]
+
+example : validChain 2 exFs = true := by decide
+
+theorem exFs_canonical : Canonical exFs 1 := by
+  constructor
+  · intro i hi A hA
+    obtain rfl : i = 0 := by omega
+    simp only [exFs, List.getElem?_cons_zero, Option.some.injEq] at hA
+    subst hA
+    intro r hr r' hr'
+    simp only at hr hr'
+    simp only [Finset.sum_range_succ, Finset.sum_range_zero, delta]
+    interval_cases r <;> interval_cases r' <;> decide
+  · intro i hi A hA
+    have hl := (List.getElem?_eq_some_iff.mp hA).1
+    simp only [exFs, List.length_cons, List.length_nil] at hl
+    obtain rfl : i = 2 := by omega
+    simp only [exFs, List.getElem?_cons_succ, List.getElem?_cons_zero, Option.some.injEq] at hA
+    subst hA
+    intro l hl l' hl'
+    simp only at hl hl'
+    simp only [Finset.sum_range_succ, Finset.sum_range_zero, delta]
+    interval_cases l <;> interval_cases l' <;> decide
+
+theorem exRt_ok : ∀ Fc, exFs[1]? = some Fc → RightOk exFs.length exFs (pyRange 1 exFs.length) Fc exRt := by
+  intro Fc hFc
+  simp only [exFs, List.getElem?_cons_succ, List.getElem?_cons_zero, Option.some.injEq] at hFc
+  subst hFc
+  refine ⟨fun _ f t' h => ?_, fun C' t' _ => ⟨fun h2 => absurd h2 (by decide), fun _ _ _ => trivial⟩⟩
+  simp only [exRt, List.cons.injEq] at h
+  obtain ⟨rfl, _⟩ := h
+  intro j hj j' hj'
+  simp only at hj hj'
+  simp only [Finset.sum_range_succ, Finset.sum_range_zero]
+  interval_cases j <;> interval_cases j' <;> decide
+
+theorem exLt_ok : ∀ Fc, exFs[1]? = some Fc → LeftOk exFs (pyRangeDown 1) Fc exLt := by
+  intro Fc hFc
+  simp only [exFs, List.getElem?_cons_succ, List.getElem?_cons_zero, Option.some.injEq] at hFc
+  subst hFc
+  refine ⟨fun f t' h => ?_, fun C' t' _ => trivial⟩
+  simp only [exLt, List.cons.injEq] at h
+  obtain ⟨rfl, _⟩ := h
+  intro j hj j' hj'
+  simp only at hj hj'
+  simp only [Finset.sum_range_succ, Finset.sum_range_zero]
+  interval_cases j <;> interval_cases j' <;> decide
+
+/-- what the model of `expect_batch` returns on the example (centre in the middle: both loops run) -/
+theorem ex_expect_batch : expectBatchAt 2 exOps exFs 1 exRt exLt =
+    some [[⟨20, 0⟩, ⟨69, 33⟩], [⟨17, 0⟩, ⟨75, 37⟩], [⟨8, 0⟩, ⟨51, 45⟩]] := by decide +kernel
+
+/-- the hypotheses of `expect_batch_eq_dense` are satisfiable, and its conclusion on the instance -/
+example : ∀ i, i < 3 →
+    ([[⟨20, 0⟩, ⟨69, 33⟩], [⟨17, 0⟩, ⟨75, 37⟩], [⟨8, 0⟩, ⟨51, 45⟩]] : List (List Z))[i]? =
+      some (exOps.map (fun O => denseProd 2 (oneSiteOps 3 i O) exFs)) :=
+  (expect_batch_eq_dense 2 exOps exFs 1 exRt exLt _ ex_expect_batch (by decide) exFs_canonical exRt_ok exLt_ok).2
+
+/-- test: the dense side evaluated by the kernel -/
+example : (List.range 3).map (fun i => exOps.map (fun O => denseProd 2 (oneSiteOps 3 i O) exFs)) =
+    [[⟨20, 0⟩, ⟨69, 33⟩], [⟨17, 0⟩, ⟨75, 37⟩], [⟨8, 0⟩, ⟨51, 45⟩]] := by decide +kernel
+
+example : normSqAt 2 exFs 1 = some ⟨24, 0⟩ ∧ denseNormSq 2 exFs = ⟨24, 0⟩ := by decide +kernel
+example : corrRow 2 exO (exFs.drop 1) = [⟨75, 37⟩, ⟨82, 210⟩] ∧
+    denseProd 2 (twoSiteOps 3 1 2 exO) exFs = ⟨82, 210⟩ := by decide +kernel
+
+/-- `expect_batch` with the second loop over `range(c - 1, 0, -1)` (the independently seeded bug) -/
+def expectBatchAtSeeded (d : Nat) (ops : List (Nat → Nat → Z)) (fs : List (Site Z)) (c : Nat)
+    (rt lt : List (RMat Z)) : Option (List (List Z)) :=
+  match fs[c]? with
+  | none => none
+  | some Fc =>
+    match foldOpt (ebRightStep d fs.length ops fs) (pyRange c fs.length)
+        ⟨Fc, rt, List.replicate fs.length (List.replicate ops.length 0)⟩ with
+    | none => none
+    | some st1 =>
+      match foldOpt (ebLeftStep d ops fs) (List.range' 1 (c - 1)).reverse ⟨Fc, lt, st1.res⟩ with
+      | none => none
+      | some st2 => some st2.res
+
+/-- The theorem is about the ranges as written: with `range(c - 1, 0, -1)` site 0 keeps the initial zeros although
+`⟨ψ|n_0|ψ⟩ = 20 ≠ 0` on the same canonical state. -/
+theorem expect_batch_seeded_range_bug :
+    ∃ res, expectBatchAtSeeded 2 exOps exFs 1 exRt exLt = some res ∧ res[0]? = some [0, 0] ∧
+      denseProd 2 (oneSiteOps 3 0 nOp) exFs = ⟨20, 0⟩ :=
+  ⟨[[0, 0], [⟨17, 0⟩, ⟨75, 37⟩], [⟨8, 0⟩, ⟨51, 45⟩]], by decide +kernel, by decide +kernel, by decide +kernel⟩
+
+end examples
 
 end EmuVerif.Props.C13Mps
